@@ -426,6 +426,42 @@ func scenario(c cfg) {
 			}
 			run.Count("timeouts_after_fast_retransmit_judged", int64(len(instants)))
 		}
+		// the other half: two more segments of the flight were lost. The peer's ACKs advance to
+		// each hole in turn (partial ACKs, 100 ms apart), each hole is retransmitted at once,
+		// then the peer goes silent: the last hole is retransmitted by timeout, not sooner than
+		// 200 ms after the transmission its partial ACK triggered.
+		if !bad && !timeoutDuringAcks && c.K%2 == 1 && c.DupAcks >= 3 && int64(c.Lost+6)*mss <= maxEnd && c.RTTus <= 10007 {
+			last := map[int64]time.Duration{}
+			for h := 2; h <= 4 && !bad; h += 2 {
+				hole := absSeg(c.Lost + h)
+				for _, d := range sendAck(hole, nil, fmt.Sprintf("partial ACK up to the hole at segment %d", c.Lost+h)) {
+					last[d.rel] = d.t
+				}
+				if h == 2 {
+					time.Sleep(100 * time.Millisecond)
+					rawpeer.Settle()
+					for _, d := range note(conn.Take(), "between the partial ACKs") {
+						last[d.rel] = d.t
+					}
+				}
+			}
+			hole := absSeg(c.Lost + 4)
+			if t2, ok := last[hole]; ok && !bad {
+				time.Sleep(3 * time.Second)
+				rawpeer.Settle()
+				for _, d := range note(conn.Take(), "silence after two partial ACKs") {
+					if d.rel == hole {
+						if gap := d.t - t2; gap < 200*time.Millisecond {
+							viol("timeout/too-soon", fmt.Sprintf("the segment at offset %d was retransmitted when a partial ACK uncovered it and again, by timeout, %v later (minimum 200 ms); an earlier partial ACK had arrived 100 ms before", hole, gap))
+						}
+						run.Count("timeouts_after_partial_acks_judged", 1)
+						break
+					}
+				}
+			} else if !bad {
+				run.Count("partial_ack_did_not_retransmit_the_hole(recorded)", 1)
+			}
+		}
 	case "latewrite":
 		// everything is acknowledged (after the configured delay), the application pauses and
 		// writes again, then the peer goes silent: whatever is retransmitted, no segment may be
